@@ -22,7 +22,7 @@ def dir_derivative(g, P, A, W, eps_step=(2e-4, 1e-4)):
 SCALES = ((2e-4, 1e-4), (2e-5, 1e-5), (2e-6, 1e-6))
 
 
-def judge_direction(g, P, A, W, an, s):
+def judge_direction(g, P, A, W, an, s, unit=1.0):
     """-> ('ok' | 'kink' | 'mismatch' | 'error', best estimate).  The analytic value `an` is accepted as soon as ONE step size
     gives agreeing one-sided slopes and a central difference equal to it: piecewise-smooth scores (TV, Wasserstein, MMD at zero
     distances) may have kinks INSIDE a coarse difference stencil although the score is differentiable at the point itself
@@ -38,11 +38,12 @@ def judge_direction(g, P, A, W, an, s):
             rich, left, right, spread = dir_derivative(g, P, A, W, steps)
         except Exception:
             return "error", None
-        if abs(left - right) > 1e-3 * max(abs(left), abs(right), 1e-9) + 1e-7 * (1e-4 / steps[1]):
+        # `unit` = natural magnitude of the score (c01.score_unit): every absolute term is taken relative to it
+        if abs(left - right) > 1e-3 * max(abs(left), abs(right), 1e-9 * unit) + 1e-7 * unit * (1e-4 / steps[1]):
             continue
-        scale = max(abs(an), abs(rich), 1e-6 * max(1.0, abs(s)))
+        scale = max(abs(an), abs(rich), 1e-6 * max(unit, abs(s)))
         # rounding of the score enters a difference quotient as ~1e-16*|s|/h
-        if abs(an - rich) <= 2e-5 * scale + 10 * spread + 1e-9 + 4e-16 * max(1.0, abs(s)) / steps[1]:
+        if abs(an - rich) <= 2e-5 * scale + 10 * spread + 1e-9 * unit + 4e-16 * max(unit, abs(s)) / steps[1]:
             return "ok", rich
         verdict, est = "mismatch", (rich if est is None else est)
     return verdict, est
@@ -58,6 +59,14 @@ def run(ctx):
     depth = 10 if ctx.tier == "quick" else 300
     rs = np.random.RandomState(ctx.seed * 7919 + 2)
     cs = c01.cases(ctx, depth)
+    # the same MMD / Wasserstein cases with affinities of other magnitudes (the property holds for every kernel and metric:
+    # a threshold with an ABSOLUTE tolerance inside the gradient code shows up only far from magnitude 1)
+    scaled = []
+    for (cls, ovo, n, K, regime, kind, P, A) in cs:
+        if cls in ("mmd", "wass") and len(scaled) < (8 if ctx.tier == "quick" else 60) and rs.rand() < 0.5:
+            mag = float(rs.choice([1e-16, 1e-8, 1e6]) if cls == "mmd" else rs.choice([1e-6, 1e4]))
+            scaled.append((cls, ovo, n, K, regime, f"{kind}*{mag:g}", P, A * mag))
+    cs = cs + scaled
     lines, impl, recs = [], [], []
     how = "gemclus.gemini.<Class>(...).evaluate(P, A, return_grad=True)[1] vs central differences through softmax(log P + tW)"
     for (cls, ovo, n, K, regime, kind, P, A) in cs:
@@ -108,7 +117,7 @@ def run(ctx):
             W = rs.randn(n, K)
             dP = P * (W - (P * W).sum(1, keepdims=True))
             an = float((G * dP).sum())
-            verdict, rich = judge_direction(g, P, A, W, an, s)
+            verdict, rich = judge_direction(g, P, A, W, an, s, c01.score_unit(cls, A))
             if verdict == "error":
                 ctx.count("oracle_error")
                 continue
@@ -136,7 +145,7 @@ def run(ctx):
             W = rs.randn(n, K)
             dP = P * (W - (P * W).sum(1, keepdims=True))
             an = float((G * dP).sum())
-            verdict, rich = judge_direction(g, P, A, W, an, float(r[0]))
+            verdict, rich = judge_direction(g, P, A, W, an, float(r[0]), c01.score_unit(cls, A))
             if verdict == "error":
                 ctx.count("oracle_error")
                 continue
